@@ -27,8 +27,8 @@ for p in props:
 man = {
     "version": 1,
     "setup_cmd": "python3 tools/setup.py",
-    "hooks": {"guard": "BLUETOE_VERIF", "enable": "-DBLUETOE_VERIF (only the native replay drivers under /verif/replay are compiled with it; no source change in /repo is guarded by it so far)",
-              "baseline_off_cmd": "bash tools/baseline.sh", "source_commits": [], "add_only": True},
+    "hooks": {"guard": "BLUETOE_VERIF", "enable": "-DBLUETOE_VERIF when compiling the native replay drivers under /verif/replay (yield points in notification_queue.hpp); the extractor verifies the guard-OFF view of the source (tools/extract.py strip_guarded)",
+              "baseline_off_cmd": "bash tools/baseline.sh", "source_commits": json.load(open(os.path.join(VERIF, "contracts", "hooks.json"))), "add_only": True},
     "engines": [{"name": "cbmc-contracts", "path": "tools/check.py", "serves_properties": [c['property_id'] for c in checks],
                  "kind_free_text": "mechanical C++->C extraction of the real function bodies (tools/extract.py) + CBMC code contracts enforced per function via goto-instrument --dfcc; native g++ replay of counterexamples against the real headers"}],
     "checks": checks,
